@@ -3,7 +3,7 @@ package fs
 // Scenario-battery replay template: when a content / position / torn-tail obligation fails and the solver's model has
 // no direct rendering as a byte-level input (the failing clause talks about stream wiring or ghost state), the check
 // instantiates the family of inputs the clause quantifies over on the REAL code and looks for a concrete failing one.
-//   VERIF_BATTERY  roundtrip | torn | positions
+//   VERIF_BATTERY  roundtrip | torn | positions | appendonly | ciphertext | readonly | tamper
 // The test FAILS (prints FAILING-INPUT lines) when some concrete input shows wrong behaviour; the check then reports
 // the violation as replayed. When it passes the violation is still reported, with the suffix no-failing-input-found.
 // Self-contained (does not need fs_harness_test.go).
@@ -17,6 +17,7 @@ import (
 	iofs "io/fs"
 	"os"
 	"path/filepath"
+	"strings"
 	"testing"
 	"time"
 
@@ -50,7 +51,7 @@ func batConfigs(t testing.TB) []batCfg {
 	mk := func(comp, enc, sig string) batCfg {
 		c := batCfg{pipes: config.PipeConfig{Compression: comp, Encryption: enc, Signature: sig, RecordSize: 20}, label: fmt.Sprintf("compression=%q encryption=%q signature=%q", comp, enc, sig)}
 		if enc != "" {
-			priv, pub, err := utility.Keygen(config.PipeConfig{Encryption: enc}, config.PasswordConfig{})
+			priv, pub, err := utility.Keygen(config.PipeConfig{Encryption: enc}, config.PasswordConfig{Password: batPassword(enc)})
 			if err != nil {
 				t.Fatal(err)
 			}
@@ -58,14 +59,14 @@ func batConfigs(t testing.TB) []batCfg {
 			if err != nil {
 				t.Fatal(err)
 			}
-			i, err := keys.ParseIdentity(enc, priv, "")
+			i, err := keys.ParseIdentity(enc, priv, batPassword(enc))
 			if err != nil {
 				t.Fatal(err)
 			}
 			c.crypto.Recipient, c.crypto.Identity = r, i
 		}
 		if sig != "" {
-			priv, pub, err := utility.Keygen(config.PipeConfig{Signature: sig}, config.PasswordConfig{})
+			priv, pub, err := utility.Keygen(config.PipeConfig{Signature: sig}, config.PasswordConfig{Password: batPassword(sig)})
 			if err != nil {
 				t.Fatal(err)
 			}
@@ -73,7 +74,7 @@ func batConfigs(t testing.TB) []batCfg {
 			if err != nil {
 				t.Fatal(err)
 			}
-			i, err := keys.ParseSignerIdentity(sig, priv, "")
+			i, err := keys.ParseSignerIdentity(sig, priv, batPassword(sig))
 			if err != nil {
 				t.Fatal(err)
 			}
@@ -87,11 +88,18 @@ func batConfigs(t testing.TB) []batCfg {
 		}
 		return c
 	}
-	for _, comp := range []string{"", config.CompressionFormatGZipKey, config.CompressionFormatLZ4Key, config.CompressionFormatZStandardKey} {
+	comps := []string{"", config.CompressionFormatGZipKey, config.CompressionFormatLZ4Key, config.CompressionFormatZStandardKey}
+	if os.Getenv("VERIF_ALL_FORMATS") != "" {
+		comps = config.KnownCompressionFormats
+	}
+	for _, comp := range comps {
 		out = append(out, mk(comp, "", ""))
 	}
 	out = append(out, mk("", config.EncryptionFormatAgeKey, ""), mk(config.CompressionFormatGZipKey, config.EncryptionFormatAgeKey, ""))
 	out = append(out, mk("", "", config.SignatureFormatMinisignKey), mk(config.CompressionFormatZStandardKey, "", config.SignatureFormatMinisignKey))
+	if os.Getenv("VERIF_ALL_FORMATS") != "" {
+		out = append(out, mk("", config.EncryptionFormatPGPKey, ""), mk(config.CompressionFormatBrotliKey, config.EncryptionFormatPGPKey, ""), mk("", "", config.SignatureFormatPGPKey), mk(config.CompressionFormatLZ4Key, "", config.SignatureFormatPGPKey))
+	}
 	var keep []batCfg
 	for _, c := range out {
 		if c.label != "" {
@@ -99,6 +107,15 @@ func batConfigs(t testing.TB) []batCfg {
 		}
 	}
 	return keep
+}
+
+var batReadOnlyFlag = false
+
+func batPassword(format string) string {
+	if format == "pgp" {
+		return "verif-battery"
+	}
+	return ""
 }
 
 func batOpen(t testing.TB, dir string, c batCfg, drive, index string) *batFS {
@@ -113,7 +130,7 @@ func batOpen(t testing.TB, dir string, c batCfg, drive, index string) *batFS {
 	wo := operations.NewOperations(backend, mc, c.pipes, c.crypto, func(*config.HeaderEvent) {})
 	f := NewSTFS(ro, wo, mc, config.CompressionLevelFastestKey, func() (cache.WriteCache, func() error, error) {
 		return cache.NewCacheWrite(filepath.Join(dir, "wc"), config.WriteCacheTypeMemory)
-	}, false, false, func(*config.Header) {}, logging.NewJSONLogger(0))
+	}, batReadOnlyFlag, false, func(*config.Header) {}, logging.NewJSONLogger(0))
 	return &batFS{fs: f, ro: ro, meta: meta, tm: tm, drive: drive, index: index}
 }
 
@@ -195,6 +212,14 @@ func TestVerifReplay_Battery(t *testing.T) {
 		batTorn(t)
 	case "positions":
 		batPositions(t)
+	case "appendonly":
+		batAppendOnly(t)
+	case "ciphertext":
+		batCiphertext(t)
+	case "readonly":
+		batReadOnly(t)
+	case "tamper":
+		batTamper(t)
 	default:
 		t.Skip("VERIF_BATTERY not set")
 	}
@@ -419,6 +444,266 @@ func batCheckPositions(t *testing.T, a *batFS, c batCfg, step int) {
 				name = th.Name
 			}
 			t.Errorf("FAILING-INPUT: %s: after step %d: the record at the reported last position (%d,%d) is not the final one on the tape (next: %q, %v)", c.label, step, lastRec, lastBlk, name, err)
+		}
+	}
+}
+
+// appendonly: after every call (successful or failing) the tape is its previous content followed by a suffix, a failing
+// call appends nothing, the tape is a whole number of 512-byte blocks and an independent tar reader, restarted after
+// every trailer, iterates it from the first to the last record; without compression/encryption the member data of each
+// live file's content record equals the file's content.
+func batAppendOnly(t *testing.T) {
+	for _, rs := range []int{1, 20} {
+		c := batCfg{pipes: config.PipeConfig{RecordSize: rs}, label: fmt.Sprintf("record size %d", rs)}
+		dir := t.TempDir()
+		a := batOpen(t, dir, c, filepath.Join(dir, "drive.tar"), filepath.Join(dir, "index.sqlite"))
+		if _, err := a.fs.Initialize("/", os.ModePerm); err != nil {
+			t.Fatal(err)
+		}
+		type step struct {
+			name string
+			run  func() error
+		}
+		steps := []step{
+			{"write /a.bin", func() error { return batWrite(a.fs, "/a.bin", batContent(700, 1)) }},
+			{"mkdir /d", func() error { return a.fs.Mkdir("/d", 0o755) }},
+			{"mkdir /d again (must fail)", func() error { return a.fs.Mkdir("/d", 0o755) }},
+			{"write /d/b.bin", func() error { return batWrite(a.fs, "/d/b.bin", batContent(5000, 2)) }},
+			{"remove /missing (must fail)", func() error { return a.fs.Remove("/missing") }},
+			{"rename /missing (must fail)", func() error { return a.fs.Rename("/missing", "/x") }},
+			{"chmod /a.bin", func() error { return a.fs.Chmod("/a.bin", 0o600) }},
+			{"chmod /missing (must fail)", func() error { return a.fs.Chmod("/missing", 0o600) }},
+			{"rename /d -> /e", func() error { return a.fs.Rename("/d", "/e") }},
+			{"rename /e -> /e/inside (must fail)", func() error { return a.fs.Rename("/e", "/e/inside") }},
+			{"rewrite /e/b.bin", func() error { return batWrite(a.fs, "/e/b.bin", batContent(1200, 3)) }},
+			{"remove /e (not empty, must fail)", func() error { return a.fs.Remove("/e") }},
+			{"mkdir /a.bin/x (must fail)", func() error { return a.fs.Mkdir("/a.bin/x", 0o755) }},
+			{"create /a.bin/y (must fail)", func() error { return batWrite(a.fs, "/a.bin/y", []byte("y")) }},
+			{"removeall /missing", func() error { return a.fs.RemoveAll("/missing") }},
+			{"removeall /e", func() error { return a.fs.RemoveAll("/e") }},
+			{"rename /a.bin -> /a.bin", func() error { return a.fs.Rename("/a.bin", "/a.bin") }},
+		}
+		prev, _ := os.ReadFile(a.drive)
+		for i, s := range steps {
+			err := s.run()
+			cur, rerr := os.ReadFile(a.drive)
+			if rerr != nil {
+				t.Fatal(rerr)
+			}
+			if len(cur) < len(prev) || !bytes.Equal(cur[:len(prev)], prev) {
+				t.Errorf("FAILING-INPUT: %s: step %d (%s): the tape is not its previous content followed by a suffix (%d bytes before, %d after, common prefix %d)", c.label, i, s.name, len(prev), len(cur), batPrefix(cur, prev))
+			}
+			if err != nil && len(cur) != len(prev) {
+				t.Errorf("FAILING-INPUT: %s: step %d (%s): the call failed (%v) but appended %d bytes", c.label, i, s.name, err, len(cur)-len(prev))
+			}
+			if strings.Contains(s.name, "must fail") && err == nil {
+				t.Errorf("FAILING-INPUT: %s: step %d (%s): the call succeeded", c.label, i, s.name)
+			}
+			if len(cur)%512 != 0 {
+				t.Errorf("FAILING-INPUT: %s: step %d (%s): the tape has %d bytes, not a whole number of 512-byte blocks", c.label, i, s.name, len(cur))
+			}
+			// independent reader: iterate archive after archive
+			off, records := 0, 0
+			for off < len(cur) {
+				tr := tar.NewReader(bytes.NewReader(cur[off:]))
+				n := 0
+				for {
+					if _, err := tr.Next(); err == io.EOF {
+						break
+					} else if err != nil {
+						t.Errorf("FAILING-INPUT: %s: step %d (%s): a standard tar reader fails in the archive starting at byte %d after %d records: %v", c.label, i, s.name, off, n, err)
+						off = len(cur)
+						break
+					}
+					if _, err := io.Copy(io.Discard, tr); err != nil {
+						t.Errorf("FAILING-INPUT: %s: step %d (%s): member data unreadable: %v", c.label, i, s.name, err)
+					}
+					n++
+				}
+				records += n
+				if off >= len(cur) {
+					break
+				}
+				// skip this archive: find the next non-zero block after at least one zero block
+				p := off
+				sawZero := false
+				for p < len(cur) {
+					blk := cur[p : p+512]
+					zero := true
+					for _, b := range blk {
+						if b != 0 {
+							zero = false
+							break
+						}
+					}
+					if zero {
+						sawZero = true
+					} else if sawZero {
+						break
+					}
+					p += 512
+				}
+				if p <= off {
+					break
+				}
+				off = p
+			}
+			prev = cur
+		}
+	}
+}
+
+// ciphertext: with encryption on, no name, link target, owner name or content fragment of any entry appears on the tape.
+func batCiphertext(t *testing.T) {
+	for _, c := range batConfigs(t) {
+		if c.pipes.Encryption == "" {
+			continue
+		}
+		dir := t.TempDir()
+		a := batOpen(t, dir, c, filepath.Join(dir, "drive.tar"), filepath.Join(dir, "index.sqlite"))
+		if _, err := a.fs.Initialize("/", os.ModePerm); err != nil {
+			t.Fatal(err)
+		}
+		secretContent := bytes.Repeat([]byte("TOP-SECRET-CONTENT-"), 40)
+		a.fs.Mkdir("/SECRETDIRNAME", 0o755)
+		batWrite(a.fs, "/SECRETDIRNAME/SECRETFILENAME.txt", secretContent)
+		a.fs.Chmod("/SECRETDIRNAME/SECRETFILENAME.txt", 0o600)
+		a.fs.Rename("/SECRETDIRNAME/SECRETFILENAME.txt", "/SECRETDIRNAME/SECRETNEWNAME.txt")
+		a.fs.SymlinkIfPossible("/SECRETDIRNAME/SECRETNEWNAME.txt", "/SECRETLINKNAME")
+		batWrite(a.fs, "/SECRETEMPTY", nil)
+		a.fs.Remove("/SECRETEMPTY")
+		tape, err := os.ReadFile(a.drive)
+		if err != nil {
+			t.Fatal(err)
+		}
+		for _, needle := range []string{"SECRETDIRNAME", "SECRETFILENAME", "SECRETNEWNAME", "SECRETLINKNAME", "SECRETEMPTY", "TOP-SECRET-CONTENT"} {
+			if i := bytes.Index(tape, []byte(needle)); i >= 0 {
+				t.Errorf("FAILING-INPUT: %s: the tape contains %q in the clear at byte %d", c.label, needle, i)
+			}
+		}
+	}
+}
+
+// readonly: a read-only instance over an existing tape and index: every mutator is refused and neither the tape nor the
+// index rows change; reads still work.
+func batReadOnly(t *testing.T) {
+	c := batCfg{pipes: config.PipeConfig{RecordSize: 20}, label: "read-only instance"}
+	dir := t.TempDir()
+	drive, index := filepath.Join(dir, "drive.tar"), filepath.Join(dir, "index.sqlite")
+	a := batOpen(t, dir, c, drive, index)
+	if _, err := a.fs.Initialize("/", os.ModePerm); err != nil {
+		t.Fatal(err)
+	}
+	a.fs.Mkdir("/d", 0o755)
+	batWrite(a.fs, "/d/f.txt", []byte("content"))
+	rows := func(b *batFS) string {
+		hs, err := b.meta.GetHeaders(context.Background())
+		if err != nil {
+			t.Fatal(err)
+		}
+		out := ""
+		for _, h := range hs {
+			out += fmt.Sprintf("%s|%d|%d|%d|%d|%d|%d;", h.Name, h.Record, h.Block, h.Lastknownrecord, h.Lastknownblock, h.Size, h.Mode)
+		}
+		return out
+	}
+	batReadOnlyFlag = true
+	defer func() { batReadOnlyFlag = false }()
+	b := batOpen(t, dir, c, drive, index)
+	tape0, _ := os.ReadFile(drive)
+	rows0 := rows(b)
+	if _, err := b.fs.Initialize("/", os.ModePerm); err != nil {
+		t.Errorf("FAILING-INPUT: read-only Initialize over an existing index: %v", err)
+	}
+	calls := map[string]func() error{
+		"Mkdir":    func() error { return b.fs.Mkdir("/x", 0o755) },
+		"MkdirAll": func() error { return b.fs.MkdirAll("/x/y", 0o755) },
+		"Create":   func() error { _, err := b.fs.Create("/n"); return err },
+		"OpenFile rw": func() error {
+			h, err := b.fs.OpenFile("/d/f.txt", os.O_RDWR, 0)
+			if err != nil {
+				return err
+			}
+			_, err = h.Write([]byte("zz"))
+			if cerr := h.Close(); err == nil {
+				err = cerr
+			}
+			return err
+		},
+		"OpenFile trunc": func() error {
+			h, err := b.fs.OpenFile("/d/f.txt", os.O_RDWR|os.O_TRUNC, 0)
+			if err != nil {
+				return err
+			}
+			err = h.Truncate(0)
+			h.Close()
+			return err
+		},
+		"Remove":    func() error { return b.fs.Remove("/d/f.txt") },
+		"RemoveAll": func() error { return b.fs.RemoveAll("/d") },
+		"Rename":    func() error { return b.fs.Rename("/d", "/e") },
+		"Chmod":     func() error { return b.fs.Chmod("/d/f.txt", 0o600) },
+		"Chown":     func() error { return b.fs.Chown("/d/f.txt", 1, 1) },
+		"Chtimes":   func() error { return b.fs.Chtimes("/d/f.txt", time.Unix(1, 0), time.Unix(1, 0)) },
+		"Symlink":   func() error { return b.fs.SymlinkIfPossible("/d/f.txt", "/l") },
+	}
+	for name, call := range calls {
+		if err := call(); err == nil {
+			t.Errorf("FAILING-INPUT: read-only instance: %s succeeded", name)
+		}
+		tape1, _ := os.ReadFile(drive)
+		if !bytes.Equal(tape0, tape1) {
+			t.Errorf("FAILING-INPUT: read-only instance: %s changed the tape (%d -> %d bytes)", name, len(tape0), len(tape1))
+			tape0 = tape1
+		}
+		if r := rows(b); r != rows0 {
+			t.Errorf("FAILING-INPUT: read-only instance: %s changed the index rows", name)
+			rows0 = r
+		}
+	}
+	if got, err := batRead(b.fs, "/d/f.txt"); err != nil || string(got) != "content" {
+		t.Errorf("FAILING-INPUT: read-only instance: reading /d/f.txt gives %q, %v", got, err)
+	}
+}
+
+// tamper: with signatures on, a tape whose content or header bytes were altered is not accepted: restoring the altered
+// entry reports an error (or the index rebuild rejects the record); it never returns altered bytes as if they were right.
+func batTamper(t *testing.T) {
+	for _, c := range batConfigs(t) {
+		if c.pipes.Signature == "" {
+			continue
+		}
+		dir := t.TempDir()
+		a := batOpen(t, dir, c, filepath.Join(dir, "drive.tar"), filepath.Join(dir, "index.sqlite"))
+		if _, err := a.fs.Initialize("/", os.ModePerm); err != nil {
+			t.Fatal(err)
+		}
+		want := batContent(4000, 9)
+		if err := batWrite(a.fs, "/signed.bin", want); err != nil {
+			t.Fatal(err)
+		}
+		full, _ := os.ReadFile(a.drive)
+		for _, flip := range []int{len(full) - 1024 - 2000, len(full) - 1024 - 3000, len(full) - 1024 - 100} {
+			if flip < 0 {
+				continue
+			}
+			d2 := filepath.Join(dir, fmt.Sprintf("flip%d", flip))
+			os.MkdirAll(d2, 0o755)
+			mod := append([]byte{}, full...)
+			mod[flip] ^= 0x41
+			drive := filepath.Join(d2, "drive.tar")
+			os.WriteFile(drive, mod, 0o644)
+			b := batOpen(t, d2, c, drive, filepath.Join(d2, "index.sqlite"))
+			if _, err := b.fs.Initialize("/", os.ModePerm); err != nil {
+				continue // rejected while rebuilding
+			}
+			if _, err := b.fs.Stat("/signed.bin"); err != nil {
+				continue
+			}
+			got, err := batRestore(b, "/signed.bin")
+			if err == nil && !bytes.Equal(got, want) {
+				t.Errorf("FAILING-INPUT: %s: byte %d of %d on the tape flipped: restoring /signed.bin returned %d altered bytes without an error", c.label, flip, len(full), len(got))
+			}
 		}
 	}
 }
